@@ -46,6 +46,8 @@ type script struct {
 	ref     *shx.Ref
 	queue   map[string][]answer
 	served  map[string][]string
+	at      map[string][]int64 // milliseconds since the case started, per served answer
+	t0      time.Time
 	silent  map[string]bool // keys whose current request is being held silently
 	onEvent func()          // called (without the lock) after every served answer / silence start
 	release chan struct{}   // closed when the case is over: silent handlers let go
@@ -55,6 +57,10 @@ func (s *script) next(key string) answer {
 	s.mu.Lock()
 	defer s.mu.Unlock()
 	q := s.queue[key]
+	if s.at == nil {
+		s.at = map[string][]int64{}
+	}
+	s.at[key] = append(s.at[key], time.Since(s.t0).Milliseconds())
 	if len(q) == 0 {
 		// beyond the script every peer is silent
 		s.served[key] = append(s.served[key], "silent")
@@ -202,14 +208,14 @@ func (hn *hostileNet) handle(s network.Stream, id wireReq) {
 func (hn *hostileNet) newManager(t testing.TB, tag string, blacklisting bool) *peers.Manager {
 	gater, err := conngater.NewBasicConnectionGater(ds_sync.MutexWrap(datastore.NewMapDatastore()))
 	if err != nil {
-		t.Fatalf("gater: %v", err)
+		bail("gater: %v", err)
 	}
 	p := *peers.DefaultParameters()
 	p.PeerCooldown = time.Hour
 	p.EnableBlackListing = blacklisting
 	m, err := peers.NewManager(p, hn.client, gater, tag)
 	if err != nil {
-		t.Fatalf("peer manager: %v", err)
+		bail("peer manager: %v", err)
 	}
 	for _, h := range hn.hostile {
 		m.UpdateNodePool(h.ID(), true)
